@@ -4,6 +4,9 @@ import NaijaVerif.Driver.Util
 /-! Line protocol `bump` — see `harness/src/bump.rs` for the request/answer grammar.  Every state
 change goes through `Bump.step` (the transition system the C11 theorems quantify over); the driver
 only numbers blocks and marks, decides `bad-op` by the rules of the protocol and formats answers.
+The `ArenaString` requests (`sstr` … `sonce`) are the string operations of `Bump.step`; the driver
+supplies the operand bytes of the protocol and decides `refused` (`Bump.replaceRangeAccepts`) and
+`abort` (`Bump.aborts`).
 
 `new <cap> <page> [<basemod>]`: the base address is an environment parameter of the model; the
 check feeds the residue reported by the implementation as third word (default `page * 4096`). -/
@@ -16,6 +19,7 @@ structure Info where
   len     : Nat := 0
   seed    : Nat := 0
   esz     : Nat := 0
+  isStr   : Bool := false
 
 structure DSt where
   ready : Bool := false
@@ -80,7 +84,7 @@ block, i.e. the op sequence `.grow`, `.store` — every theorem about histories 
 def doGrow (d : DSt) (blk new : Nat) (z : Bool := false) : DSt × String :=
   match d.infos[blk]?, findBlk d.st.live blk with
   | some info, some b =>
-      if new < b.len || new > maxBytes then bad d else
+      if info.isStr || new < b.len || new > maxBytes then bad d else
       match d.st.a.grow b.beg b.len new b.align with
       | none => (d, s!"err {oc d.st.a}")
       | some (nb, _) =>
@@ -92,10 +96,15 @@ def doGrow (d : DSt) (blk new : Nat) (z : Bool := false) : DSt × String :=
            s!"ok beg={nb} len={new} moved={if nb ≠ b.beg then 1 else 0} {oc st1.a} sum={sum}")
   | _, _ => bad d
 
+def isStrBlk (d : DSt) (blk : Nat) : Bool :=
+  match d.infos[blk]? with
+  | some i => i.isStr
+  | none => false
+
 def doShrink (d : DSt) (blk new : Nat) : DSt × String :=
   match findBlk d.st.live blk with
   | some b =>
-      if new > b.len || b.beg + b.len ≠ d.st.a.offset then bad d else
+      if isStrBlk d blk || new > b.len || b.beg + b.len ≠ d.st.a.offset then bad d else
       let (len, _) := d.st.a.shrink b.beg b.len new
       let st1 := step d.st (.shrink blk new)
       (setInfo { d with st := st1 } blk (fun i => { i with len := new }),
@@ -135,6 +144,123 @@ def vecAnswer (d : DSt) (id : Nat) (caps : List Nat) (lastSum : String) (failed 
     | some b =>
         if caps.isEmpty then s!"ok beg={b.beg} len={b.len} caps=- {oc d.st.a}"
         else s!"ok beg={b.beg} len={b.len} caps={joinCaps caps} {oc d.st.a} sum={lastSum}"
+
+
+/-! ### `ArenaString` requests
+
+Every state change is `Bump.step` on one of the string operations (`sstr`/`sfrom`: an `.alloc` of
+the capacity followed by `.sPush`); the driver chooses the operand bytes (the protocol's pattern),
+decides `bad-op` / `refused` / `abort` by the rules of the protocol and formats the answer. -/
+
+def apat (seed j : Nat) : Nat := 0x20 + pat seed j % 94
+
+def apatBytes (seed n : Nat) : List Nat := (List.range n).map (apat seed)
+
+/-- UTF-8 of 'x', 'é', '€', '😀'. -/
+def charBytes : Nat → List Nat
+  | 1 => [0x78]
+  | 2 => [0xC3, 0xA9]
+  | 3 => [0xE2, 0x82, 0xAC]
+  | _ => [0xF0, 0x9F, 0x98, 0x80]
+
+def strUsable (d : DSt) (blk : Nat) : Bool :=
+  match d.infos[blk]? with
+  | some i => i.isStr && (i.len == 0 || (findBlk d.st.live blk).isSome)
+  | none => false
+
+/-- Record where the buffer is now and format the answer of a string request. -/
+def strAnswer (d : DSt) (blk : Nat) (st1 : St) (beg0 cap0 : Nat) (atTxt : String) : DSt × String :=
+  let (beg, cap, len) := match findBlk st1.live blk with
+    | some b => (if b.len == 0 then 0 else b.beg, b.len, b.used)
+    | none => (0, 0, 0)
+  let moved := cap0 > 0 && cap > 0 && beg != beg0
+  let d1 := setInfo { d with st := st1 } blk
+    (fun i => { i with beg := beg, len := cap, created := i.created || cap > 0 })
+  (d1, s!"ok{atTxt} beg={if cap == 0 then "-" else toString beg} len={len} cap={cap} moved={if moved then 1 else 0} {oc st1.a} sum={digest st1.a.mem beg len}")
+
+def strOp (d : DSt) (blk : Nat) (op : Op) (atTxt : String := "") : DSt × String :=
+  if aborts d.st op then (d, s!"abort {oc d.st.a}") else
+  let (beg0, cap0) := match findBlk d.st.live blk with
+    | some b => (b.beg, b.len)
+    | none => (0, 0)
+  strAnswer d blk (step d.st op) beg0 cap0 atTxt
+
+def doStrNew (d : DSt) (cap n : Nat) : DSt × String :=
+  let id := d.infos.size
+  let d0 := { d with infos := d.infos.push { seed := id, isStr := true } }
+  let src := apatBytes (31 * id + 1) n
+  if cap == 0 then strAnswer d0 id d0.st 0 0 ""
+  else match d0.st.a.alloc cap 1 with
+    | none => ({ d with infos := d.infos.push { seed := id } }, s!"abort {oc d.st.a}")
+    | some _ =>
+        let st1 := step d0.st (.alloc id cap 1 false)
+        strAnswer d0 id (step st1 (.sPush id src)) 0 0 ""
+
+def strRequest (d : DSt) (ws : List String) : Option (DSt × String) :=
+  let num (s : String) : Option Nat := s.toNat?
+  match ws with
+  | ["sstr", c, n] =>
+      match num c, num n with
+      | some cap, some n => some (if cap > 2 ^ 20 || n > cap then bad d else doStrNew d cap n)
+      | _, _ => some (bad d)
+  | ["sfrom", n] =>
+      match num n with
+      | some n => some (if n > 2 ^ 20 then bad d else doStrNew d n n)
+      | none => some (bad d)
+  | [op, b, rest1] =>
+      if !(op == "spush" || op == "schar" || op == "sres" || op == "sresx") then none else
+      match num b, num rest1 with
+      | some blk, some n =>
+          if n > 2 ^ 20 || (op == "schar" && !(1 ≤ n && n ≤ 4)) || !strUsable d blk then some (bad d) else
+          let len0 := (strDims d.st blk).2
+          let sd := 31 * blk + len0
+          some (match op with
+            | "spush" => strOp d blk (.sPush blk (apatBytes (sd + 2) n))
+            | "schar" => strOp d blk (.sPush blk (charBytes n))
+            | "sres" => strOp d blk (.sReserve blk n false)
+            | _ => strOp d blk (.sReserve blk n true))
+      | _, _ => some (bad d)
+  | ["srepeat", b, k, n] =>
+      match num b, num k, num n with
+      | some blk, some k, some n =>
+          if n > 2 ^ 18 || !(1 ≤ k && k ≤ 4) || !strUsable d blk then some (bad d) else
+          some (strOp d blk (.sPush blk ((List.replicate n (charBytes k)).flatten)))
+      | _, _, _ => some (bad d)
+  | ["sshrink", b] =>
+      match num b with
+      | some blk =>
+          if !strUsable d blk then some (bad d) else
+          let (cap0, len0) := strDims d.st blk
+          let tail := match findBlk d.st.live blk with
+            | some bl => bl.beg + bl.len == d.st.a.offset
+            | none => false
+          if cap0 > len0 && len0 > 0 && !tail then some (bad d) else some (strOp d blk (.sShrink blk))
+      | none => some (bad d)
+  | ["sclear", b] =>
+      match num b with
+      | some blk => if !strUsable d blk then some (bad d) else some (strOp d blk (.sClear blk))
+      | none => some (bad d)
+  | ["srep", b, lo, hi, n] =>
+      match num b, num lo, (if hi == "-" then some none else (num hi).map some), num n with
+      | some blk, some lo, some hi, some n =>
+          if n > 2 ^ 20 || lo > 2 ^ 40 || (hi.getD 0) > 2 ^ 40 || !strUsable d blk then some (bad d) else
+          if !replaceRangeAccepts d.st blk lo hi then some (d, s!"refused {oc d.st.a}") else
+          some (strOp d blk (.sReplace blk lo (hi.getD (2 ^ 64 - 1)) (apatBytes (31 * blk + (strDims d.st blk).2 + 3) n)))
+      | _, _, _, _ => some (bad d)
+  | ["sonce", b, p, k, n] =>
+      match num b, num p, num k, num n with
+      | some blk, some pos, some k, some n =>
+          if n > 2 ^ 20 || k > 2 ^ 20 || pos > 2 ^ 40 || !strUsable d blk then some (bad d) else
+          -- `step` on `.sOnce blk old new` is by definition: `findSub`, then `.sReplace` at the index found
+          -- (`Props/C11.lean: step_sOnce`); the driver searches once and reuses the index for the answer
+          let c := strContent d.st blk
+          let old := if pos + k ≤ c.length && replaceRangeAccepts d.st blk pos (some (pos + k))
+            then (c.drop pos).take k else List.replicate k 0x7E
+          match findSub c old with
+          | some i => some (strOp d blk (.sReplace blk i (i + old.length) (apatBytes (31 * blk + c.length + 4) n)) s!" at={i}")
+          | none => some (strAnswer d blk d.st 0 0 " at=none")
+      | _, _, _, _ => some (bad d)
+  | _ => none
 
 def stepLine (d : DSt) (line : String) : DSt × String :=
   let ws := words line
@@ -200,7 +326,7 @@ def stepLine (d : DSt) (line : String) : DSt × String :=
   | ["fill", b, s] =>
       match b.toNat?, s.toNat? with
       | some blk, some seed =>
-          match findBlk d.st.live blk with
+          match (if isStrBlk d blk then none else findBlk d.st.live blk) with
           | some _ =>
               let st1 := step d.st (.store blk (pat seed))
               (setInfo { d with st := st1 } blk (fun i => { i with seed := seed }), "ok")
@@ -240,7 +366,7 @@ def stepLine (d : DSt) (line : String) : DSt × String :=
               (d1, vecAnswer d1 blk caps sum failed)
           | _, _ => bad d
       | _, _ => bad d
-  | _ => bad d
+  | _ => (strRequest d ws).getD (bad d)
 
 def main : IO Unit := do
   loop (← IO.getStdin) (← IO.getStdout) ({} : DSt) stepLine
